@@ -2,7 +2,7 @@
    [part_all p] = every message the partition stores (log files then buffer, segment by segment).
    FULL statement (history level, includes the cursor after restart/retention; see DESIGN.md, proved
    in the refinement development when present): *)
-From IggyV Require Import Base.Tactics Base.ListX Model.Part Model.PartSpec Proofs.PartBasics.
+From IggyV Require Import Base.Tactics Base.ListX Model.Part Model.PartSpec Proofs.PartBasics Proofs.PartHistory.
 Open Scope N_scope.
 
 Definition C01_full : Prop :=
@@ -35,9 +35,42 @@ Proof. exact restart_all. Qed.
 Theorem C01_purge : forall c now p, part_all (purge c now p) = [] /\ p_cur (purge c now p) = 0 /\ p_inc (purge c now p) = false.
 Proof. exact purge_all. Qed.
 
+(* PROVED, history level (induction over EVERY operation list: sends, flushes, background saves, clean restarts, purges,
+   size-based retention, cache eviction, polls with auto-commit, consumer-offset operations, topic-setting changes), for
+   every configuration with a positive segment size, as long as offsets stay below 2^32 (the index stores 32-bit relative
+   offsets) and no message expiry is configured (expiry-based retention depends on the read path and on monotone time: not
+   covered by this theorem - that part of C01_full / C14_full remains stated only):
+   the stored messages are ONE gap-free, duplicate-free run starting at the first segment's start offset, and the next offset
+   to be assigned is the one right after its last message - also after restarts and after retention emptied the partition. *)
+Theorem C01_history_partial : forall ops c t0, good_cfg c -> Forall no_expiry_op ops ->
+  Forall (fun q => abase q <= B32) (prun_states (c, part_new c t0) ops) ->
+  let p := snd (pfinal (c, part_new c t0) ops) in
+  contig (first_start p) (part_all p) /\ NoDup (map m_off (part_all p)) /\ abase p = first_start p + nlen (part_all p).
+Proof.
+  intros ops c t0 Hc Hops Hb. cbn zeta. destruct (history_J ops c (part_new c t0) Hc (J_new c t0) Hops Hb) as [HJ _].
+  split; [apply (j_contig _ HJ) | split; [apply (contig_nodup _ _ (j_contig _ HJ)) | apply (j_cursor _ HJ)]].
+Qed.
+
+
+(* the side conditions are met by ordinary histories: roll-over, restart with buffered messages, retention, purge *)
+Example C01_history_nonvacuous :
+  let c := {| c_req := 2; c_seg := 150; c_cache := true; c_idx := false; c_dedup := false; c_expiry := None; c_max := Some 300; c_del_oldest := true |} in
+  let ops := [OSend 10 [(1, 10, 0); (2, 10, 0)]; OSend 11 [(3, 40, 0)]; ORestart 12; OSend 13 [(4, 10, 0); (5, 10, 0); (6, 10, 0)]; OMaintain 14;
+              OFlush; OSend 15 [(7, 1, 0)]; OSave; OMaintain 16; OPoll KNext 10 false 1 true; ORestart 17; OSend 18 [(8, 1, 0)]] in
+  good_cfg c /\ Forall no_expiry_op ops /\ Forall (fun q => abase q <= B32) (prun_states (c, part_new c 1) ops) /\
+  map m_off (part_all (snd (pfinal (c, part_new c 1) ops))) = [3; 4; 5; 6; 7] /\ first_start (snd (pfinal (c, part_new c 1) ops)) = 3.
+Proof.
+  intros c ops. split; [split; reflexivity|]. split; [repeat (constructor; [exact I|]); constructor|].
+  split; [|vm_compute; split; reflexivity].
+  apply Forall_forall. intros q Hq.
+  assert (Hall : forallb (fun q => abase q <=? B32) (prun_states (c, part_new c 1) ops) = true) by (vm_compute; reflexivity).
+  rewrite forallb_forall in Hall. apply N.leb_le. apply Hall. exact Hq.
+Qed.
+
 Print Assumptions C01_append.
 Print Assumptions C01_flush.
 Print Assumptions C01_save.
 Print Assumptions C01_maintain_cursor.
 Print Assumptions C01_restart_messages.
 Print Assumptions C01_purge.
+Print Assumptions C01_history_partial.
